@@ -78,4 +78,21 @@ func Set.SymDiff(set)
 func Set.Range(f)
   mode rangeloop
   opt rangemap setmap(this)
+
+func CartesianProduct
+  property C03
+  requires a != nil && b != nil
+  ensures[count]    len(result) == card(a) * card(b)
+  ensures[pairs]    forall j :: 0 <= j && j < len(result) ==> mem(a, result[j].A) && mem(b, result[j].B)
+  ensures[all]      forall x TA, y TB :: {mem(a, x), mem(b, y)} mem(a, x) && mem(b, y) ==> (exists j :: 0 <= j && j < len(result) && result[j].A == x && result[j].B == y)
+  ensures[distinct] forall i, j :: 0 <= i && i < j && j < len(result) ==> result[i].A != result[j].A || result[i].B != result[j].B
+  rangecall 0 invariant (base(result) == 0 || fresh(result)) && len(result) == niter * card(b)
+  rangecall 0 invariant forall j :: 0 <= j && j < len(result) ==> visited[result[j].A] && mem(a, result[j].A) && mem(b, result[j].B)
+  rangecall 0 invariant forall x TA, y TB :: {visited[x], mem(b, y)} visited[x] && mem(b, y) ==> (exists j :: 0 <= j && j < len(result) && result[j].A == x && result[j].B == y)
+  rangecall 0 invariant forall i, j :: 0 <= i && i < j && j < len(result) ==> result[i].A != result[j].A || result[i].B != result[j].B
+  rangecall 1 invariant (base(result) == 0 || fresh(result)) && len(result) == (niter_0 - 1) * card(b) + niter && visited_0[valueA] && mem(a, valueA)
+  rangecall 1 invariant forall j :: 0 <= j && j < len(result) ==> visited_0[result[j].A] && mem(a, result[j].A) && mem(b, result[j].B) && (result[j].A == valueA ==> visited[result[j].B])
+  rangecall 1 invariant forall x TA, y TB :: {visited_0[x], mem(b, y)} visited_0[x] && mem(b, y) && (x != valueA || visited[y]) ==> (exists j :: 0 <= j && j < len(result) && result[j].A == x && result[j].B == y)
+  rangecall 1 invariant forall i, j :: 0 <= i && i < j && j < len(result) ==> result[i].A != result[j].A || result[i].B != result[j].B
+  rangecall 1 invariant forall y TB :: {visited[y]} visited[y] ==> mem(b, y)
 @*/
